@@ -41,9 +41,9 @@ func (c09) Batches(tier string, seed uint64) []core.Batch {
 
 func (c09) Mandatory(tier string) []string {
 	return []string{"kind:string", "kind:int-negative", "kind:int-zero", "kind:uint>=2^63", "kind:bool-true", "kind:bool-false", "tag:control-name", "tag:skip", "tag:multiline",
-		"tag:required-present", "tag:required-empty-written", "required-missing-rejected", "list:default-delim", "list:comma", "list:comma-space", "list:newline", "list:empty-omitted",
+		"tag:required-present", "tag:required-empty-written", "required-missing-rejected", "list:default-delim", "list:default-delim-odd-interior-element", "list:comma", "list:comma-space", "list:newline", "list:empty-omitted",
 		"list:required-empty", "list:ints", "list:versions", "list:archs", "nested:version", "nested:dependency", "nested:arch", "nested:checksums", "ptr:nil", "ptr:non-nil",
-		"pass:unknown-kept", "pass:overwritten", "pass:cleared", "pass:newly-set", "pass:documents", "pass:marshal-twice", "pass:clear-marshal-set-marshal", "pass:late-embedded-cleared", "pass:all-omittable-struct", "setupdate"}
+		"pass:unknown-kept", "pass:overwritten", "pass:cleared", "pass:newly-set", "pass:documents", "pass:marshal-twice", "pass:clear-marshal-set-marshal", "pass:late-embedded-cleared", "pass:all-omittable-struct", "setupdate", "types:same-name-different-layout"}
 }
 
 // ---- probe types ----
@@ -769,6 +769,14 @@ func (p c09) RunBatch(t *core.T, b core.Batch) {
 			t.Case("scalars", in, func(c *core.C) { p.scalars(c, v) })
 		case "lists":
 			v := prLists{Def: words(r, 0, 4), Comma: words(r, 0, 4), CommaSp: words(r, 0, 4), Lines: words(r, 0, 4), Strip: words(r, 0, 3), ReqList: words(r, 0, 3)}
+			if len(v.Def) >= 3 && r.Chance(1, 3) {
+				// interior elements of the blank-delimited list that are empty or hold white space other than the delimiter
+				v.Def[1+r.Intn(len(v.Def)-2)] = r.Pick([]string{"", "a\tb", "x\u00a0y", "p\u3000q", "\tz", "w\t"})
+				t.Cover("list:default-delim-odd-interior-element")
+			}
+			if len(v.Comma) >= 3 && r.Chance(1, 4) {
+				v.Comma[1] = r.Pick([]string{"", "a b", " lead", "trail ", "a\tb"})
+			}
 			for k := r.Range(0, 3); k > 0; k-- {
 				v.Ints = append(v.Ints, anyInt(r))
 			}
@@ -824,6 +832,8 @@ func (p c09) RunBatch(t *core.T, b core.Batch) {
 		case "required":
 			present, which := r.Bool(), r.Intn(3)
 			t.Case("required", []byte(fmt.Sprintf("%v/%d", present, which)), func(c *core.C) { p.required(c, present, which) })
+			first, a, b2 := r.Intn(2), word(r), word(r)
+			t.Case("samename", []byte(fmt.Sprintf("%d/%s/%s", first, a, b2)), func(c *core.C) { p.sameName(c, first, a, b2) })
 		case "setupdate":
 			// Paragraph.Set / Paragraph.Update against a plain ordered-map model
 			n1, n2 := r.Range(0, 5), r.Range(0, 5)
@@ -840,6 +850,62 @@ func (p c09) RunBatch(t *core.T, b core.Batch) {
 			t.Case("pass", in, func(c *core.C) { p.pass(c, cs) })
 		}
 	}
+}
+
+// sameName: two distinct struct types that print under the same name (reflect.Type.String() is not
+// unique: both are "props.stanza"), with different tags, marshalled in one process in either order.
+func (p c09) sameName(c *core.C, first int, a, b string) {
+	binary := func() {
+		type stanza struct {
+			Name    string `control:"Package"`
+			Summary string `control:"Description" required:"true"`
+			Private string `control:"-"`
+		}
+		v := stanza{Name: a, Private: b}
+		var buf bytes.Buffer
+		if err := control.Marshal(&buf, v); err != nil {
+			c.Failf("Marshal(%+v) failed: %v", v, err)
+			return
+		}
+		text := buf.String()
+		if !hasField(text, "Package") || !hasField(text, "Description") || hasField(text, "Private") || hasField(text, "Source") || hasField(text, "X-Private") || (a != b && strings.Contains(text, ": "+b+"\n")) {
+			c.Failf("Marshal of a struct with fields Package, Description(required), '-' wrote %q", text)
+		}
+		var back stanza
+		if err := control.Unmarshal(&back, strings.NewReader(text)); err != nil || back.Name != a || back.Summary != "" || back.Private != "" {
+			c.Failf("round trip of %+v through %q gives %+v (err %v)", v, text, back, err)
+		}
+	}
+	source := func() {
+		type stanza struct {
+			Name    string `control:"Source"`
+			Summary string `control:"-"`
+			Private string `control:"X-Private"`
+		}
+		v := stanza{Name: a, Summary: "not for output", Private: b}
+		var buf bytes.Buffer
+		if err := control.Marshal(&buf, v); err != nil {
+			c.Failf("Marshal(%+v) failed: %v", v, err)
+			return
+		}
+		text := buf.String()
+		if !hasField(text, "Source") || !hasField(text, "X-Private") || hasField(text, "Summary") || hasField(text, "Package") || hasField(text, "Description") || strings.Contains(text, "not for output") {
+			c.Failf("Marshal of a struct with fields Source, '-', X-Private wrote %q", text)
+		}
+		var back stanza
+		if err := control.Unmarshal(&back, strings.NewReader(text)); err != nil || back.Name != a || back.Summary != "" || back.Private != b {
+			c.Failf("round trip of %+v through %q gives %+v (err %v)", v, text, back, err)
+		}
+	}
+	if first == 0 {
+		binary()
+		source()
+	} else {
+		source()
+		binary()
+	}
+	c.Cover("types:same-name-different-layout")
+	c.Nontrivial()
 }
 
 type omap struct {
@@ -935,6 +1001,13 @@ func (p c09) RunCase(t *core.T, kind string, input []byte) {
 			present = parts[0] == "true"
 			fmt.Sscanf(parts[1], "%d", &which)
 			t.Case(kind, input, func(c *core.C) { p.required(c, present, which) })
+		}
+	case "samename":
+		parts := strings.SplitN(string(input), "/", 3)
+		if len(parts) == 3 {
+			first := 0
+			fmt.Sscanf(parts[0], "%d", &first)
+			t.Case(kind, input, func(c *core.C) { p.sameName(c, first, parts[1], parts[2]) })
 		}
 	case "pass":
 		var cs c09Pass
